@@ -7,7 +7,14 @@
   request with a reply addressed to exactly the source address it was shown;
 * a router is one NSAP (+ NSE) bound to 2..4 LANs with network numbers; startup announcements can be kept
   (warm caches, learned through the real I-Am-Router-To-Network handling) or suppressed (cold caches);
-  routing tables can also be written directly (cyclic topologies, where announcements circulate for ever).
+  routing tables can also be written directly (cyclic topologies, where announcements circulate for ever);
+* a router may carry an application (topology key "apps"): the same recording `Upper` is bound above its NSAP,
+  the home port is bound last so that it is the NSAP's local adapter; that application is a station (numbered
+  after the plain ones);
+* routers may come up late (cache 'late'/'lcall'/'lask'): the first requests are handed down while no router
+  is attached to any LAN, then all routers are created and announce themselves with the library's own code
+  (NetworkServiceElement.startup() / i_am_router_to_network() / answers to a Who-Is-Router-To-Network without
+  a network number), then the later requests are handed down.
 
 Topology: see bv.refs.fwdref (json-able dict).  Nothing here judges anything.
 """
@@ -17,6 +24,7 @@ from bacpypes.pdu import Address, LocalStation, RemoteStation, LocalBroadcast, R
 from bacpypes.apdu import UnconfirmedRequestPDU
 from bacpypes.vlan import Node
 from bacpypes.netservice import NetworkServiceAccessPoint, NetworkServiceElement, RouterInfoCache
+from bacpypes.npdu import WhoIsRouterToNetwork
 
 from bv.engine import vclock
 from bv.engine.ctlnet import Wire, CtlNetwork
@@ -117,17 +125,26 @@ class Station(object):
 
 
 class Router(object):
-    def __init__(self, index, ports, lans, netnums, announce, record=False):
+    def __init__(self, index, ports, lans, netnums, announce, record=False, sysm=None, home=None, station_index=None):
+        """home: position of the port the router's application lives on (None: a pure router); that port is
+        bound last, NetworkServiceAccessPoint.bind() makes the last port bound with an address the local one."""
         self.index = index
         self.nsap = NetworkServiceAccessPoint(router_info_cache=RecordingCache() if record else None)
         self.nse = (NetworkServiceElement if announce else QuietNSE)()
         bind(self.nse, self.nsap)
         self.nodes = []
-        for (ni, mac) in ports:
+        self.upper = None
+        order = list(ports)
+        if home is not None:
+            order = [p for i, p in enumerate(ports) if i != home] + [ports[home]]
+            self.upper = Upper(sysm, station_index)
+            bind(self.upper, self.nsap)
+        for (ni, mac) in order:
             addr = Address(mac)
             node = Node(addr, lans[ni])
             self.nsap.bind(node, netnums[ni], addr)
             self.nodes.append(node)
+        self.adapter = self.nsap.local_adapter
 
 
 def know_of(mode, k):
@@ -152,7 +169,15 @@ class NetSystem(object):
               'rcold'  as warm, then the routers' tables are emptied (routers restarted);
               'nwarm'  as warm, then every router announces Network-Number-Is on its ports (real frames): stations that
                        did not know their network number learn it *after* they learned their routes;
-              'preset' no announcements, shortest-path tables written directly (cyclic topologies)."""
+              'preset' no announcements, shortest-path tables written directly (cyclic topologies);
+              'late'   no router is attached while the first wave of requests is handed down (path queries go
+                       unanswered, the packets wait); then all routers are created and run the library's start-up
+                       announcement (real frames, delivery order is the explorer's); when that has come to rest
+                       the second wave is handed down;
+              'lcall'  as late, the routers come up silently and then each calls i_am_router_to_network();
+              'lask'   as late, the routers come up silently and then every station that sent in the first wave
+                       broadcasts a Who-Is-Router-To-Network without a network number."""
+    LATE = ("late", "lcall", "lask")
 
     def __init__(self, topo, cache="warm", know="K", reply="now", tables=None, learned=None, record=False):
         vclock.reset(0.0)
@@ -182,9 +207,27 @@ class NetSystem(object):
         self.announced = announce
         self.stations = [Station(self, k, self.lans[ni], self.netnums[ni], mac, know_of(know, k), record)
                          for k, (ni, mac) in enumerate(topo["stations"])]
-        self.routers = [Router(j, ports, self.lans, self.netnums, announce, record) for j, ports in enumerate(topo["routers"])]
+        self.record = record
+        # (network index, MAC) of every application: the plain stations, then the routers' applications
+        self.places = [tuple(p) for p in topo["stations"]] + [tuple(r[h]) for r, h in zip(topo["routers"], topo.get("apps") or [])
+                                                              if h is not None]
+        self.routers = []
+        self.endpoints = list(self.stations)        # whatever has an application: .upper, .adapter, .nsap
+        self.phases = []            # what happens each time the network has come to rest (late modes)
+        if cache not in self.LATE:
+            self._build_routers(announce)
         self.warm_frames = 0
         self.tables = tables
+
+    def _build_routers(self, announce):
+        apps = self.topo.get("apps") or [None] * len(self.topo["routers"])
+        k = len(self.stations)
+        for j, ports in enumerate(self.topo["routers"]):
+            rt = Router(j, ports, self.lans, self.netnums, announce, self.record, self, apps[j], k if apps[j] is not None else None)
+            self.routers.append(rt)
+            if apps[j] is not None:
+                self.endpoints.append(rt)
+                k += 1
 
     # ---- preparation
     def start(self):
@@ -229,7 +272,7 @@ class NetSystem(object):
     def destination(self, src, dest):
         kind = dest[0]
         if kind == "u":
-            ni, mac = self.topo["stations"][dest[1]]
+            ni, mac = self.places[dest[1]]
             return LocalStation(mac) if dest[2] == "local" else RemoteStation(self.netnums[ni], mac)
         if kind == "ua":
             return LocalStation(dest[2]) if dest[3] == "local" else RemoteStation(self.netnums[dest[1]], dest[2])
@@ -247,15 +290,41 @@ class NetSystem(object):
         """Station src hands a request for `dest` to its network layer."""
         self._mark()
         self.current = None
-        self.stations[src].upper.send(REQ_SERVICE, payload, self.destination(src, dest))
+        self.endpoints[src].upper.send(REQ_SERVICE, payload, self.destination(src, dest))
         self._after(None)
+
+    def routers_up(self, askers=()):
+        """Late modes: every router is created now and attached to its LANs."""
+        self._mark()
+        self.current = None
+        self._build_routers(self.cache == "late")
+        self._after(None)
+        if self.cache == "lcall":
+            for rt in self.routers:
+                self._mark()
+                try:
+                    rt.nse.i_am_router_to_network()
+                except Exception as err:
+                    self.errors.append("i_am_router_to_network: %s: %s" % (type(err).__name__, str(err)[:100]))
+                self._after(None)
+        elif self.cache == "lask":
+            for k in askers:
+                ep = self.endpoints[k]
+                self._mark()
+                ask = WhoIsRouterToNetwork()
+                ask.pduDestination = LocalBroadcast()
+                try:
+                    ep.nse.request(ep.adapter, ask)
+                except Exception as err:
+                    self.errors.append("who_is_router: %s: %s" % (type(err).__name__, str(err)[:100]))
+                self._after(None)
 
     def inject(self, src, octets, mac_dst):
         """Station src's LAN port emits crafted NPDU octets (mac_dst None = broadcast)."""
         self._mark()
         self.current = None
         pdu = PDU(octets, destination=LocalBroadcast() if mac_dst is None else LocalStation(mac_dst))
-        self.stations[src].adapter.request(pdu)
+        self.endpoints[src].adapter.request(pdu)
         self._after(None)
 
     def pay_owed(self):
@@ -264,7 +333,7 @@ class NetSystem(object):
         for (k, shown, data) in owed:
             self._mark()
             self.current = None
-            self.stations[k].upper.answer(shown, data)
+            self.endpoints[k].upper.answer(shown, data)
             self._after(None)
         return len(owed)
 
@@ -338,7 +407,7 @@ class NetSystem(object):
         order = tuple((f.net.name, f.data) for f in self.wire.inflight)
         # per-LAN order matters, cross-LAN order does not (the menu offers the oldest of every LAN)
         per_lan = tuple(sorted((name, tuple(d for (n, d) in order if n == name)) for name in set(n for n, _ in order)))
-        return (self.tables_now(), fl, per_lan, tuple(sorted(self.deliveries, key=repr)), len(self.owed))
+        return (self.tables_now(), fl, per_lan, tuple(sorted(self.deliveries, key=repr)), len(self.owed), len(self.phases))
 
     def state_hash(self, salt):
         return h64((salt, self.canon_state()))
@@ -363,6 +432,9 @@ def run_execution(make, choices, max_steps, want_states=None, salt=None):
         if not m:
             if sysm.owed:
                 sysm.pay_owed()
+                continue
+            if sysm.phases:
+                sysm.phases.pop(0)()
                 continue
             break
         if i < len(choices):
